@@ -777,6 +777,19 @@ class Interp:
         except KeyError:
             if name in self.builtins:
                 return self.builtins[name]
+            e = env
+            while e is not None and name not in e.ctypes:
+                e = e.parent
+            if e is not None:
+                ct = norm_ctype(e.ctypes[name])
+                ct = self._aliases().get(ct, ct)
+                if is_int_ctype(ct) or is_float_ctype(ct):
+                    # a declared C local read before any assignment: undefined behaviour
+                    self.ctx.oblige(self.obname(f"initialised_before_use[{name}]", getattr(self, "cur_node", None)), False,
+                                    "memory-safety", {"why": "read of an uninitialised C variable"})
+                    v = self.ctx.fresh_cv(ct, name + "_uninit")
+                    e.vars[name] = v
+                    return v
             raise Unsupported(f"unknown name {name}")
         if isinstance(v, Poison):
             raise Unsupported(f"read of {name}: {v.why}")
